@@ -18,7 +18,7 @@ from sa.sym import I, ZERO
 from rules import c19
 
 P = lambda p, f: sym.arrow(sym.sym(p), f)
-NOINLINE = summ.InlineLib(only=lambda f: False)
+NOINLINE = summ.LOCAL_HELPERS
 BOUNDS = {"128": 0.0037, "80": 0.0047}      # from the property statement
 MUX_FACTOR = 1.35
 
